@@ -47,7 +47,9 @@ MR_OPS = ['mk.macro\t0\t-\th4 h5', 'mk.macro\t0\t-\th5 h4', 'mk.macro\t0\tC\th5 
           'mk.rxn\t0\t-\tbind21\th2 h3\th4', 'mk.rxn\t0\t-\tbind21\th3 h2\th4', 'mk.rxn\t0\t-\topen\th2 h3\th4',
           'mk.rxn\t0\tR\tbind21\th2 h3\th4', 'mk.rxn\t0\tR\t-\tNONE\tNONE', 'drop\th6', 'drop\th7']
 STRAND_OPS = ['mk.strand\t0\tS\th0 h1', 'mk.strand\t0\t-\th0 h1', 'mk.strand\t0\tS\th1', 'mk.strand\t0\tT\th0 h1', 'mk.strand\t0\tS\tNONE',
-              'mk.strand\t0\ts1\th1 h1', 'mk.strand\t0\t-\th0 + h1', 'drop\th2', 'drop\th3']
+              'mk.strand\t0\ts1\th1 h1', 'mk.strand\t0\t-\th0 + h1', 'drop\th2', 'drop\th3',
+              # the optional prefix of the automatic name: another prefix, an empty one, a prefix next to an explicit name
+              'mk.strandp\t0\t-\tq\th0 h1', 'mk.strandp\t0\t-\t\th1', 'mk.strandp\t0\tS\tq\th0 h1']
 
 
 def handles_ok(line, held):
@@ -158,6 +160,8 @@ def random_history(iw, rng, length):
             l = 'mk.cplx\t%d\t%s\t-\tNONE\t' % (cls, rng.choice(['X', 'Y', 'c1', 'Z'])); kind = 'cplx'
         elif r < 0.66:
             l = 'mk.strand\t%d\t%s\t%s' % (cls, rng.choice(['-', 'S', 's1']), ' '.join('h%d' % rng.choice(doms) for _ in range(rng.randint(1, 3))))
+            if rng.random() < 0.3:
+                l = 'mk.strandp\t%d\t%s\t%s\t%s' % (cls, rng.choice(['-', '-', 'S']), rng.choice(['q', '', 's', '-']), ' '.join('h%d' % rng.choice(doms) for _ in range(rng.randint(1, 3))))
             kind = 'strand'
         elif r < 0.76 and cx:
             mem = rng.sample(cx, rng.randint(1, min(3, len(cx))))
